@@ -76,6 +76,18 @@ def run(ctx):
                 ctx.violation(dict(sig, kind='negative-output'), dict(detail, min=float(out.min())), case=None)
             if name != 'pixel' and abs(out.sum() - img.sum()) > 1e-10 * img.sum():
                 ctx.violation(dict(sig, kind='total-not-kept'), dict(detail, before=float(img.sum()), after=float(out.sum())), case=None)
+            # 1a. frames of counts (integer / unsigned / boolean samples, nested lists): the blur is the same linear map
+            for frame in (np.round(img * 20).astype(np.int64), np.round(img * 20).astype(np.uint16), img > 2.5, np.round(img * 20).astype(int).tolist()):
+                try:
+                    o_t = np.asarray(call[name](frame), dtype=float)
+                    o_f = call[name](np.asarray(frame, dtype=float))
+                except Exception as ex:
+                    ctx.violation(dict(sig, kind=type(ex).__name__, frame_dtype=np.asarray(frame).dtype.kind), dict(detail, error=repr(ex)[:200]), case=None)
+                    break
+                if o_t.shape != (R, C) or not np.allclose(o_t, o_f, rtol=0, atol=1e-9 * (1 + np.abs(o_f).max())):
+                    ctx.violation(dict(sig, kind='depends-on-sample-type', frame_dtype=np.asarray(frame).dtype.kind),
+                                  dict(detail, max_abs_difference=float(np.abs(o_t - o_f).max()) if o_t.shape == o_f.shape else None), case=None)
+                    break
             # 1b. sparse frames (point sources on an empty background): ringing of the kernel goes negative before abs()
             sp_img = np.zeros((R, C))
             for _ in range(rng.randint(1, 3)):
